@@ -72,6 +72,7 @@ class _Stats:
         self.excluded = 0
         self.violations = []
         self.notes = {}
+        self.inc_samples = {}
 
     def add(self, case, res, keep_sample=True):
         self.evaluations += 1
@@ -80,6 +81,7 @@ class _Stats:
         inc = res.get("inconclusive")
         if inc:
             self.inconclusive[inc] = self.inconclusive.get(inc, 0) + 1
+            self.inc_samples.setdefault(inc, case)
         if res.get("excluded"):
             self.excluded += 1
         if res.get("nontrivial"):
@@ -102,6 +104,7 @@ class _Stats:
             "excluded": self.excluded,
             "violations": self.violations,
             "counters": self.notes,
+            "inc_samples": self.inc_samples,
         }
 
 
@@ -301,6 +304,10 @@ def run_check(pid, tier):
             if len(samples) < 4:
                 samples.append(smp)
         excluded += d["excluded"]
+        for reason, case in (d.get("inc_samples") or {}).items():
+            os.makedirs(REPLAYS, exist_ok=True)
+            with open(os.path.join(REPLAYS, f"inconclusive-{pid}-{reason.replace(':', '_').replace('/', '_')}.json"), "w") as f:
+                json.dump({"property": pid, "case": case, "inconclusive": reason}, f)
         if d.get("found"):
             founds.append(d["found"])
     wall = time.time() - t0
